@@ -7,6 +7,8 @@
 (*   <<"t", name, follow>>   '(name)=' block target (name = sequence of code points);        *)
 (*                           follow = "next": the next item (or a plain paragraph) follows,  *)
 (*                           "quote": a block quote holding a titled admonition follows      *)
+(*   <<"f", label, "note">>  a paragraph with the footnote reference [^label] and its          *)
+(*                           definition: a docutils name, but NOT a target of '#label' links   *)
 (* followed by a fixed block of links <<name, form>>                                        *)
 (* (form "text" | "empty" | "auto" = <project:#name>).                                      *)
 (* M: render phase, one action per item (Heading: generate_heading_target with              *)
@@ -96,6 +98,9 @@ Target == /\ pos <= Len(items) /\ items[pos][1] = "t"
           /\ explicit' = Append(explicit, <<Norm(items[pos][2]), pos>>)
           /\ pos' = pos + 1 /\ UNCHANGED <<items, depth, links, slugs, lpos, res, nwarn>>
 
+Footnote == /\ pos <= Len(items) /\ items[pos][1] = "f"
+            /\ pos' = pos + 1 /\ UNCHANGED <<items, depth, links, slugs, explicit, lpos, res, nwarn>>
+
 LinkSeq == links    \* a sequence of <<name, form>>
 Lookup(reg, n) == LET c == {j \in 1..Len(reg) : reg[j][1] = n} IN
                   IF c = {} THEN 0 ELSE reg[CHOOSE j \in c : \A i \in c : j <= i][2]
@@ -108,7 +113,7 @@ Resolve == /\ pos > Len(items) /\ lpos <= Len(LinkSeq)
                                     ELSE IF s # 0 THEN <<"slug", s>> ELSE <<"missing">>)
            /\ lpos' = lpos + 1 /\ UNCHANGED <<items, depth, links, pos, slugs, explicit, nwarn>>
 
-Next == Heading \/ Target \/ Resolve
+Next == Heading \/ Target \/ Footnote \/ Resolve
 Spec == Init /\ [][Next]_vars /\ WF_vars(Next)
 Done == pos > Len(items) /\ lpos > Len(LinkSeq)
 
@@ -124,7 +129,7 @@ SlugsUnique == \A a, b \in 1..Len(slugs) : a # b => slugs[a][1] # slugs[b][1]
 DepthRule == pos > Len(items) => {slugs[n][2] : n \in 1..Len(slugs)} = HeadIdx
 (* explicit targets first, then slugs, else missing; never a different target *)
 TargetIdx(n) == {j \in 1..Len(items) : items[j][1] = "t" /\ Norm(items[j][2]) = Norm(n)}
-NoDupTargets == \A i, j \in 1..Len(items) : (i # j /\ items[i][1] = "t" /\ items[j][1] = "t") => Norm(items[i][2]) # Norm(items[j][2])
+NoDupTargets == \A i, j \in 1..Len(items) : (i # j /\ items[i][1] \in {"t", "f"} /\ items[j][1] \in {"t", "f"}) => Norm(items[i][2]) # Norm(items[j][2])
 (* for an empty link text: the item whose title fills it (a target directly followed by a   *)
 (* heading takes that heading's title), 0 = none ("#name" is shown)                          *)
 TitleOf(r) == IF r[1] = "slug" THEN r[2]
